@@ -57,6 +57,8 @@ def lib_flags():
             'connect_undo': 'remove_cp_and_links' in src(NetworkService.connect_interface),
             'peer_checks': 'check_node_unique' in src(NetworkService.peer),
             'props_check': '_check_name_unique' in src(Node.set_properties),
+            'link_cp_only': 'isinstance(i, Interface)' in src(Topology.add_link),
+            'disc_peering': 'peering port' in src(NetworkService.disconnect_interface),
         }
     return _FLAGS['f']
 
@@ -152,7 +154,7 @@ class Histories(Stream):
             return '(%s %s)' % (REF[r[0]], s(r[1]))
         code('')
 
-        def opterm(op):
+        def opterm(op, _out=None):
             k, a = op[1], op[2:]
             if k == 'add_node':
                 return 'OAddNode %s %s %s' % (s(a[0]), so(a[1]), s(a[3]))
@@ -188,6 +190,10 @@ class Histories(Stream):
                 return 'ORemoveLink %s' % s(a[0])
             if k in ('connect', 'disconnect', 'peer', 'unpeer'):
                 return '%s %s %s' % ({'connect': 'OConnect', 'disconnect': 'ODisconnect', 'peer': 'OPeer', 'unpeer': 'OUnpeer'}[k], s(a[0]), s(a[1]))
+            if k == 'stale_add_iface' and _out == 'noref':
+                return 'ODisconnect %s %s' % (s(''), s(''))      # the driver kept no such handle (shrunk history): a call that cannot be made
+            if k == 'stale_add_iface':
+                return 'OStaleAddIface %s %s %s %s' % (s(a[0]), s(a[1]), so(a[2]), s(a[3]))
             if k == 'add_sub':
                 return 'OAddSub %s %s %s %s' % (s(a[0]), s(a[1]), so(a[2]), cbool(a[3] is not None))
             if k == 'remove_sub':
@@ -219,14 +225,14 @@ class Histories(Stream):
         steps = []
         for op, st in zip(case['ops'], obs['steps']):
             out = 'None' if st['out'] == 'ok' else '(Some %s)' % EXN.get(st['out'], 'EOtherExn')
-            steps.append('mkStep (%s) %s %s %s %s %s %s' % (opterm(op), sl(st['drawn']), sl(st['hint']), out, snap(st['snap']), vw(st['views']),
+            steps.append('mkStep (%s) %s %s %s %s %s %s' % (opterm(op, st['out']), sl(st['drawn']), sl(st['hint']), out, snap(st['snap']), vw(st['views']),
                                                         cbool(bool(st['rules']))))
         body = '[' + ';\n     '.join(steps) + ']'
         tb = '[' + '; '.join(cstr(x).replace('%N', '') for x in tbl) + ']'
         fl = lib_flags()
-        flags = 'mkFlags %s %s %s %s %s %s %s %s' % (cbool(fl['rename_check']), cbool(fl['link_refuse']), cbool(fl['skip_gone']),
-                                                     cbool(fl['connect_names']), cbool(fl['comp_precheck']), cbool(fl['connect_undo']),
-                                                     cbool(fl['peer_checks']), cbool(fl['props_check']))
+        flags = 'mkFlags ' + ' '.join(cbool(fl[k]) for k in (
+            'rename_check', 'link_refuse', 'skip_gone', 'connect_names', 'comp_precheck', 'connect_undo', 'peer_checks',
+            'props_check', 'link_cp_only', 'disc_peering'))
         return '((%s, %s), %s,\n   fun s => %s)' % (cbool(case['flavour'] == 'sub'), flags, tb, body)
 
     # ---------------------------------------------------------------------------- independent oracle
@@ -328,7 +334,7 @@ class C07(Check):
         'Coq 8.16.1 kernel (coqc), vm_compute for the correspondence evaluation; no native_compute',
         'translator/gen_rules.py + translator/pyast.py (rules JSON, enum classes, component catalogue, NAME_REGEX, ViewOnlyDict -> Gen/Rules.v), fail-closed',
         'harness/c07.py, topo7_driver.py, topo7_gen.py, topo7_oracle.py + harness/common.py (history generation, fresh-handle resolution through the views, snapshot of storage.extract_graph, string table, cases.v writer)',
-        'eight behaviour flags read off the source of the library under test (lib_flags: repairs C07-3..8, C09-6, C09-7 present or not)',
+        'ten behaviour flags read off the source of the library under test (lib_flags: repairs C07-3..10, C09-6, C09-7 present or not)',
         'modelled not verified: networkx Graph (one undirected edge per pair, remove_node drops incident edges), networkx_query search_nodes as a filter, dict insertion/overwrite, uuid4 (replaced by a deterministic source in the harness process), re.fullmatch of the NAME_REGEX character classes on ASCII names',
     ]
     assumptions = [
@@ -396,6 +402,14 @@ WITNESSES = {
         [2, 'add_component', 'a', 'c1', 'c', 'SharedNIC', 'ConnectX-6', 's', ['i']],
         [3, 'add_ns', 's1', 'b', 'L2Bridge', ['i']],
         [4, 'remove_link', 'n1-c1-p1-link']]}),
+    'C07_add_link_non_interfaces_refuted': ('link_cp_only', {'flavour': 'exp', 'ops': [
+        [1, 'add_node', 'n1', 'a', 'S1', 'VM'], [2, 'add_node', 'n2', 'b', 'S1', 'VM'],
+        [3, 'add_link', 'l1', 'l', 'Patch', ['a', 'b']]]}),
+    'C07_disconnect_peering_port_refuted': ('disc_peering', {'flavour': 'exp', 'ops': [
+        [1, 'add_ns', 'sA', 'a', 'L2Bridge', []], [2, 'add_ns', 'sB', 'b', 'L2Bridge', []], [3, 'peer', 'a', 'b'],
+        [4, 'disconnect', 'a', 'g3x0']]}),
+    'C07_stale_add_interface_refuted': (None, {'flavour': 'exp', 'ops': [
+        [1, 'add_ns', 's1', 'a', 'L2Bridge', []], [2, 'remove_ns', 's1'], [3, 'stale_add_iface', 'a', 'p1', 'x', 'TrunkPort']]}),
     'C07_set_properties_name_refuted': ('props_check', {'flavour': 'exp', 'ops': [
         [1, 'add_node', 'n1', 'a', 'S1', 'VM'], [2, 'add_node', 'n2', 'b', 'S1', 'VM'], [3, 'set_prop', ['node', 'b'], 'names', 'n1']]}),
     'C07_peer_self_refuted': ('peer_checks', {'flavour': 'exp', 'ops': [
